@@ -41,19 +41,20 @@ type msg struct {
 }
 
 type rawConn struct {
-	mc     *memnet.Conn
-	rw     io.ReadWriter // mc or the TLS client on top of it
-	tag    string
-	rx     []byte
-	wsbuf  []byte
-	ws     bool
-	eof    bool
-	eofErr string
-	closed bool // closed by the harness
-	msgs   []msg
-	junk   int
-	wrErr  string
-	seen   int // messages already consumed by next()
+	mc      *memnet.Conn
+	rw      io.ReadWriter // mc or the TLS client on top of it
+	tag     string
+	rx      []byte
+	wsbuf   []byte
+	ws      bool
+	eof     bool
+	eofErr  string
+	closed  bool // closed by the harness
+	stalled bool // the peer has stopped reading (poll does nothing)
+	msgs    []msg
+	junk    int
+	wrErr   string
+	seen    int // messages already consumed by next()
 }
 
 func isTimeout(err error) bool {
@@ -107,7 +108,7 @@ var pollBuf = make([]byte, 1<<16)
 
 // poll moves everything the server has written so far into the parsed message list.
 func (c *rawConn) poll() {
-	if c.closed {
+	if c.closed || c.stalled {
 		return
 	}
 	buf := pollBuf
@@ -577,7 +578,11 @@ func execute(cs Case) (res Result) {
 		if c, ok := conns[i]; ok {
 			return c
 		}
+		if cs.Conv == "play-tcp-stalled" {
+			env.Net.DialRecvBuf = 2048 // a few packets fill the stalled reader's receive buffer (hostile connections only, server -> peer only)
+		}
 		c, err := dialRaw(env, fmt.Sprint("hostile", i), cs.Cfg.TLS && !plaintext)
+		env.Net.DialRecvBuf = 0
 		if err != nil {
 			panic(fmt.Sprint("cannot dial: ", err))
 		}
@@ -610,6 +615,22 @@ func execute(cs Case) (res Result) {
 			res.Sent++
 			if !settle() {
 				return failf("hang", "library not quiescent after datagram of step %d", i)
+			}
+			continue
+		}
+		if st.Kind == "stall" {
+			c := conn(st.Conn)
+			c.poll()
+			c.stalled = true
+			if app.Stream != nil {
+				for k := 0; k < 40; k++ {
+					pkt := &rtp.Packet{Header: rtp.Header{Version: 2, PayloadType: 96, SequenceNumber: uint16(500 + k), Timestamp: uint32(k) * 3000, SSRC: 0x77}, Payload: make([]byte, 1000)}
+					app.Stream.WritePacketRTP(app.Stream.Desc.Medias[0], pkt) //nolint:errcheck
+				}
+			}
+			res.Sent++
+			if !settle() {
+				return failf("hang", "library not quiescent after the reader stalled at step %d", i)
 			}
 			continue
 		}
@@ -711,6 +732,7 @@ func execute(cs Case) (res Result) {
 	// (2) answered or closed
 	for _, k := range sortedKeys(conns) {
 		c := conns[k]
+		c.stalled = false // the timeouts have passed: look at what the server did with the connection
 		c.poll()
 		if !c.closed && !c.eof {
 			return failf("connection-not-closed", "hostile connection %d still open %v of virtual time after the last byte (IdleTimeout %v, ReadTimeout %v, WriteTimeout %v); %d bytes unparsed, %d messages received",
